@@ -93,9 +93,11 @@ impl Part for WirePart {
     }
 }
 
-fn dead_port() -> u16 {
-    let l = std::net::TcpListener::bind("127.0.0.3:0").unwrap();
-    l.local_addr().unwrap().port()
+/// A port on 127.0.0.3 nobody ever listens on: below the ephemeral range (so the kernel never hands it to a mock backend) and
+/// outside the pgcat range. (Taking "any free port" and releasing it was wrong: another worker's mirror mock could be given
+/// that port a moment later, and this case's pgcat then mirrored its traffic into the other case's log.)
+fn dead_port(worker: usize) -> u16 {
+    19000 + (worker as u16 % 1000)
 }
 
 /// Split a frontend byte stream into units; the second value is a trailing incomplete unit.
@@ -167,6 +169,7 @@ async fn run_case(c: &Case, ctx: &mut WorkerCtx) -> Outcome {
         specs.push(BackendSpec::trust("127.0.0.3", &format!("m{}", i)));
     }
     let mirrors = c.mirrors.clone();
+    let worker = ctx.worker;
     let (shards_n, replicas) = (c.shards as usize, c.replicas);
     let env = match Env::start(ctx, &specs, |mocks| {
         let mut cfg = PgcatConfig::new();
@@ -181,7 +184,7 @@ async fn run_case(c: &Case, ctx: &mut WorkerCtx) -> Outcome {
             let mut ms = vec![];
             for (i, m) in mirrors.iter().enumerate() {
                 if m.shard as usize == s {
-                    let port = if m.mode == Mode::DeadPort { dead_port() } else { mocks[n_main + i].port };
+                    let port = if m.mode == Mode::DeadPort { dead_port(worker) } else { mocks[n_main + i].port };
                     ms.push(MirrorDef { host: "127.0.0.3".into(), port, target: m.target as usize });
                 }
             }
@@ -332,6 +335,9 @@ async fn run_case(c: &Case, ctx: &mut WorkerCtx) -> Outcome {
                 }
                 if detail.is_empty() {
                     detail = "units are copies of the mirrored server's requests but not in its order".into();
+                }
+                if std::env::var("PGVERIF_DUMP_ON_FAIL").is_ok() {
+                    wire::dump_log(&log);
                 }
                 o.fail(
                     if foreign { "mirror-received-other-servers-traffic" } else { "mirror-stream-not-a-copy" },
